@@ -68,7 +68,8 @@ func RunCheck(t *testing.T, p Params) {
 	if run.Case >= 0 {
 		body(int(run.Case))
 	} else {
-		vkit.Parallel(n, runtime.GOMAXPROCS(0), body)
+		// the work is dominated by fsync waits, so run more histories than cores
+		vkit.Parallel(n, 2*runtime.GOMAXPROCS(0), body)
 	}
 	for k, v := range total {
 		if len(k) > 4 && k[:4] == "max_" {
